@@ -23,6 +23,7 @@ type c05Scen struct {
 	NoType  bool                                 // the `type` value is a string different from every constant
 	Custom  tri                                  // is a custom codec installed (CustomJSON* != nil); triU: unknown
 	Tag     string
+	Errors  bool // codec operations may fail: their error result is unknown instead of nil (explores the error paths)
 }
 
 // c05Op is one (un)marshal operation observed on a path.
@@ -102,6 +103,9 @@ func (cx *c05Codec) interp(root *FuncInfo, sc c05Scen) *c03Interp {
 					t := dst.Var.Type()
 					st.vars[dst.Var] = x.initVal(&c03Root{Kind: "decoded", Node: call, Of: args[0], T: t, Obj: dst.Var}, nil, t, x.fresh("dec"))
 				}
+			}
+			if sc.Errors {
+				return []*c03V{x.unk(errT)}, true
 			}
 			return []*c03V{{K: c03KNil, T: errT}}, true
 		},
